@@ -1,3 +1,113 @@
-/- Property theorems for C01 — to be filled in. -/
+/-
+  C01 — Crash anywhere, restart with recovery: same outcome as an uninterrupted run.
+
+  Model: `Op.crash id k` = the delivery of row `id` is killed after `k` durable commits (all Python state is lost;
+  nothing volatile exists in the model), `Op.sweep` = recovery.  The harness enumerates every (delivery, k) of the
+  reference run against the real engine and compares state lines with this model (quick: sampled, thorough: all).
+  Theorems: the granularity facts the property rests on.  The end-to-end statement "final outcome = uninterrupted
+  outcome" is FALSE of model and code (finding F18, witness below) and is otherwise validated by the harness.
+-/
+import Stab.Lemmas.EngineGood
+
 namespace Stab.Props.C01
+open Stab Stab.Engine
+
+theorem processResult_len (c : Cfg) (st : StageSt) (id i t n : Nat) (oc : Outcome) :
+    (processResult c st id i t n oc).length ≤ 1 := by
+  unfold processResult
+  cases oc <;> simp only [] <;> (repeat' split) <;> simp
+
+/-- **Atomicity**: every handler except StartStage (claim | plan), CompleteStage (join-tracking writes | completion)
+    and CancelWorkflow (flag | fan-out) commits AT MOST ONCE — its state change, its continuation messages and its
+    processed mark become durable together or not at all. -/
+theorem single_commit_handlers (c : Cfg) (s : State) (row : Row)
+    (h1 : ∀ i r, row.msg ≠ .startStage i r) (h2 : ∀ i, row.msg ≠ .completeStage i) (h3 : row.msg ≠ .cancelWorkflow) :
+    (handle c s row).1.length ≤ 1 := by
+  unfold handle
+  cases hm : row.msg with
+  | startWorkflow => simp only [hStartWorkflow]; (repeat' split) <;> simp
+  | startStage i r => exact absurd hm (h1 i r)
+  | startTask i t => simp only [hStartTask]; (repeat' split) <;> simp
+  | runTask i t =>
+    simp only [hRunTask]
+    (repeat' split)
+    all_goals first | exact processResult_len .. | simp
+  | completeTask i t st => simp only [hCompleteTask]; (repeat' split) <;> simp
+  | completeStage i => exact absurd hm (h2 i)
+  | skipStage i => simp only [hSkipStage]; (repeat' split) <;> simp
+  | cancelStage i => simp only [hCancelStage]; (repeat' split) <;> simp
+  | completeWorkflow r => simp only [hCompleteWorkflow]; (repeat' split) <;> simp
+  | cancelWorkflow => exact absurd hm h3
+  | jumpToStage a b => simp only [hJumpToStage]; (repeat' split) <;> simp
+  | signalStage i p => simp only [hSignalStage]; (repeat' split) <;> simp
+
+/-- StartStage commits at most twice (claim, plan). -/
+theorem startStage_at_most_two_commits (c : Cfg) (s : State) (id i r : Nat) : (hStartStage c s id i r).length ≤ 2 := by
+  unfold hStartStage startIfReady
+  simp only []
+  (repeat' split) <;> simp
+
+/-- **A kill before the first commit changes nothing durable** except the row's attempt counter: stage rows, workflow
+    row, processed marks and the audit trail are those of the pre-state, the message is still queued. -/
+theorem crash_before_first_commit (c : Cfg) (s : State) (id : Nat) :
+    (step c s (.crash id 0)).stages = s.stages ∧ (step c s (.crash id 0)).wfStatus = s.wfStatus ∧
+    (step c s (.crash id 0)).canceled = s.canceled ∧ (step c s (.crash id 0)).processed = s.processed ∧
+    (step c s (.crash id 0)).audit = s.audit ∧
+    (step c s (.crash id 0)).queue.map (fun r => (r.id, r.msg)) = s.queue.map (fun r => (r.id, r.msg)) := by
+  simp only [step]
+  split
+  · simp
+  · rename_i row0 _
+    have hq : (claimRow s row0.id).queue.map (fun r => (r.id, r.msg)) = s.queue.map (fun r => (r.id, r.msg)) := by
+      simp only [claimRow, List.map_map]
+      apply List.map_congr_left
+      intro r _
+      simp only [Function.comp]
+      split <;> rfl
+    have hrec : ∀ (s1 : State) (row : Row), (recordExec c s1 row).stages = s1.stages ∧ (recordExec c s1 row).wfStatus = s1.wfStatus ∧
+        (recordExec c s1 row).canceled = s1.canceled ∧ (recordExec c s1 row).processed = s1.processed ∧
+        (recordExec c s1 row).audit = s1.audit ∧ (recordExec c s1 row).queue = s1.queue := by
+      intro s1 row; unfold recordExec; split <;> simp [bumpCount]
+    unfold deliverRow afterHandle
+    simp only [List.take_zero, applyTxns, List.foldl_nil]
+    have := hrec (claimRow s row0.id) { row0 with attempts := row0.attempts + 1 }
+    (repeat' split) <;> simp_all
+
+/-- a kill after the LAST commit of the handler (before the processor's own mark + ack) leaves exactly what an
+    unacknowledged delivery leaves: the message is redelivered later; C02/C09 make that redelivery harmless -/
+theorem crash_after_last_commit_eq_unacked (c : Cfg) (s : State) (id : Nat) (row0 : Row)
+    (hf : s.queue.find? (fun r => r.id == id) = some row0)
+    (hpos : 0 < (handle c (claimRow s row0.id) { row0 with attempts := row0.attempts + 1 }).1.length) :
+    step c s (.crash id ((handle c (claimRow s row0.id) { row0 with attempts := row0.attempts + 1 }).1.length))
+      = step c s (.deliverNoAck id) := by
+  simp only [step, hf]
+  unfold deliverRow afterHandle
+  have hne : ((handle c (claimRow s row0.id) { row0 with attempts := row0.attempts + 1 }).1.length == 0) = false := by
+    simpa using Nat.ne_of_gt hpos
+  simp [List.take_length, hne]
+
+/-! ### The end-to-end statement is false: finding F18
+
+Kill between StartStage's claim commit and its plan commit, on a stage with predefined tasks: the stage is RUNNING
+with NOT_STARTED tasks, so it is not recognised as a zombie (a zombie has no tasks); the redelivered StartStage is
+ignored, recovery pushes StartTask, and the task runs WITHOUT the ancestor outputs merged into its context. -/
+
+def chainStage (reqs : List Nat) : StageCfg :=
+  { reqs := reqs, join := JoinType.and, threshold := 0, cont := false, failp := true, enabled := none,
+    maxj := none, tasks := [[Outcome.succ]] }
+def chain : Cfg := { wfMaxj := none, stages := [chainStage [], chainStage [0]] }
+
+/-- uninterrupted FIFO run: stage 1's task sees stage 0's output -/
+def fifoOps : List Op := (List.range 12).map (fun k => Op.deliver (k + 1))
+/-- the same run, killed after StartStage(1)'s claim commit; restart, sweep, drain -/
+def crashOps : List Op :=
+  ((List.range 6).map (fun k => Op.deliver (k + 1))) ++ [Op.crash 7 1, Op.sweep, Op.deliver 7, Op.deliver 8, Op.deliver 9,
+    Op.deliver 10, Op.deliver 11, Op.deliver 12, Op.deliver 13]
+
+theorem crash_between_claim_and_plan_loses_upstream_data :
+    ((run chain fifoOps).ledger.map (fun e => (e.s, e.seen))) = [(0, []), (1, [(0, 1)])] ∧
+    ((run chain crashOps).ledger.map (fun e => (e.s, e.seen))) = [(0, []), (1, [])] ∧
+    (run chain crashOps).wfStatus = (run chain fifoOps).wfStatus := by
+  decide
+
 end Stab.Props.C01
